@@ -128,6 +128,9 @@ def gen_cases(rng, tier):
         for _ in range(100):
             cases.append({"kind": "serial", "seed": rng.randrange(2**32), "n": 10, "max_inputs": 24})
     cases.append({"kind": "direct", "seed": rng.randrange(2**32), "n": 40 if tier == "quick" else 400})
+    # fixed small workloads, so that every seed reaches the "value the writer cannot store" class
+    cases.append({"kind": "fixed", "store": "fasta", "variant": "str"})
+    cases.append({"kind": "fixed", "store": "dir", "variant": "set-of-str"})
     return cases
 
 
@@ -727,10 +730,6 @@ def expected_for(W, obs, plan, key):
     return expected(WW, names, key, src_text_of(W, obs, key))
 
 
-def store_id_to_key(W, rec):
-    return rec["id"]
-
-
 def check_history(res, W, obs, plan, label, prior=None, replay=None):
     """decides one history. `prior`: records (by key) already in the store before this call (resumed run)"""
     prior = prior or {}
@@ -754,7 +753,9 @@ def check_history(res, W, obs, plan, label, prior=None, replay=None):
         if culprit is None:
             culprit = next((k for k in keys if k not in written and not is_falsy_input(W, obs, k)), None)
         exp = expected_for(W, obs, plan, culprit) if culprit is not None else {}
-        res.count("apply_to-raised")
+        res.count("run-raised")
+        if exp.get("writer_level"):
+            res.count("writer-level:reached")
         if exp.get("sourceless"):
             mech = "C14/apply_to/input-with-own-source-not-proxied/record-without-source-aborts-run"
         elif exp.get("writer_level"):
@@ -883,6 +884,7 @@ def check_history(res, W, obs, plan, label, prior=None, replay=None):
                 res.count("source-not-demanded")
         res.evals += 1
         if exp.get("writer_level"):
+            res.count("writer-level:reached")
             res.count("writer-level-failure-recorded")
         elif solo[k] != (rec["kind"], rec["content"]):
             res.witness("C14/association/differs-from-app-on-that-input-alone", **det(key=k, record=rec, alone=solo[k]))
@@ -1106,6 +1108,25 @@ def case_direct(res, case):
             res.witness("C14/call/none-input-not-reported", steps=steps, got=repr(got)[:200])
 
 
+def case_fixed(res, case):
+    """three inputs, the middle one's last step returns a value the writer cannot store"""
+    keys = ["r00bcdg", "r01hkmp", "r02qvwz"]
+    steps = ["alpha"] + (["seqs"] if case["store"] == "fasta" else [])
+    W = {
+        "n": 3, "steps": steps, "store": case["store"], "entry": "apply_to", "inputs": "str", "logger": False, "keys": keys,
+        "payload": {k: "%08x" % (i * 2654435761 % 2**32) for i, k in enumerate(keys)},
+        "plan": {keys[1]: {"at": len(steps), "mode": "wrong", "variant": case["variant"]}},
+        "falsy": [],
+    }  # fmt: skip
+    world = World(W)
+    try:
+        res.count("histories:serial")
+        obs = run_history(W, world, W["plan"])
+        check_history(res, W, obs, W["plan"], "serial", replay=case)
+    finally:
+        world.close()
+
+
 def run_case(case):
     res = Result()
     kind = case["kind"]
@@ -1115,6 +1136,8 @@ def run_case(case):
         case_serial(res, case)
     elif kind == "direct":
         case_direct(res, case)
+    elif kind == "fixed":
+        case_fixed(res, case)
     return res
 
 
@@ -1133,7 +1156,7 @@ def required(counters, tier):
     for m in MODES:
         if counters.get("outcome:" + m, 0) < 1:
             miss.append(f"outcome class '{m}' never decided")
-    for k in ("histories:serial", "histories:parallel", "pass-through:observed", "direct:not-completed-through-chain", "resume:kept-completed"):
+    for k in ("histories:serial", "histories:parallel", "pass-through:observed", "direct:not-completed-through-chain", "resume:kept-completed", "writer-level:reached"):
         if counters.get(k, 0) < 1:
             miss.append(f"{k} never reached")
     if counters.get("falsy-input:dropped", 0) + counters.get("falsy-input:recorded", 0) < 1:
